@@ -9,6 +9,8 @@ mod link_conditioner;
 #[cfg(feature = "server")]
 mod server;
 mod tcp;
+#[cfg(replicon_verif)]
+pub mod verif;
 
 #[cfg(feature = "client")]
 pub use client::*;
